@@ -55,7 +55,9 @@ def build(prop, spec, tier, seed, ded, per_obl, n_obl, n_dis, undecided, bchecks
         "verified_with_caller_inlined": sorted(inlined),
         "per_obligation": [{"name": o["name"], "kind": o["kind"], "status": o["status"], "backend": o["backend"],
                             "ms": round(o["ms"], 1), "path_queries": o["queries"],
-                            "expect": o["expect"]} for o in per_obl],
+                            "expect": o["expect"], **({"cvc5_second_opinion": o["cross"]} if o.get("cross") else {})}
+                           for o in per_obl],
+        "cvc5_second_opinion": {k: sum((o.get("cross") or {}).get(k, 0) for o in per_obl) for k in ("unsat", "unknown", "sat")},
         "undecided": undecided,
         "solver_time_s": round(solver_ms / 1000.0, 3),
         "bounded": bchecks,
